@@ -237,10 +237,12 @@ class _AndFilterToSqlWhere:
             if case_sensitive is None:
                 case_sensitive = not bool(desc_filter.value.islower())
 
-            like_arg = f"%{desc_filter.value}%".replace("_", "\\_")
+            like_arg = f"%{_escape_like(desc_filter.value)}%"
             op_arg: Any
             if case_sensitive:
-                cond = sql.Note.body.like(like_arg)  # type: ignore[attr-defined]
+                cond = sql.Note.body.like(  # type: ignore[attr-defined]
+                    like_arg, escape="\\"
+                )
                 subquery = select(sql.Note.id, sql.Note.body).where(cond)
                 id_list: list[int] = []
                 for ID, body in self.session.exec(subquery).all():
@@ -350,6 +352,16 @@ def _zid_link_conds(notes: Iterable[sql.Note]) -> list[ColumnElement]:
     for note in notes:
         conds.append(cast(ColumnElement, sql.Link.name == f"zid:{note.zid}"))
     return conds
+
+
+def _escape_like(text: str) -> str:
+    """Escapes LIKE metacharacters so {text} is matched literally.
+
+    The escape character is a backslash (pass escape="\\" to like/ilike).
+    """
+    return (
+        text.replace("\\", "\\\\").replace("%", "\\%").replace("_", "\\_")
+    )
 
 
 def _noop(value: _T) -> _T:
